@@ -37,6 +37,11 @@ inductive LineComp (R : Type)
   /-- slab: `min/max distance slab top`, top / bottom fractions (side = |max − min|);
       fault: `min distance`, `side distance`, center / side fractions — no range test at all -/
   | smooth (mn mx side : R) (op : Op) (comps : List Nat) (topF bottomF : List R)
+  /-- slab only: `tian water content` (`min/max distance slab top`).  What it paints depends on the query depth and on the
+  temperature of the whole world at the query point, neither of which `LineComp.get` is handed: `LineComp.prepare` turns it, for
+  the query at hand and where its range test passes, into the `uniform` model with that value; where the range test fails it is
+  left as it is and `get` returns `old`, as the C++ does. -/
+  | tianWater (mn mx : R) (op : Op) (comps : List Nat) (spec : TianSpec R)
 
 def LineComp.get (m : LineComp R) (isFault : Bool) (pd : PlaneDist R) (n : Nat) (old : R) : Except Err R :=
   match m with
@@ -67,6 +72,22 @@ def LineComp.get (m : LineComp R) (isFault : Bool) (pd : PlaneDist R) (n : Nat) 
           return applyOp op old (t * scaling + b * ((1 : R) - scaling))
         | none => if op == .replace then .ok 0.0 else .ok old
       else .ok old
+  | .tianWater .. => .ok old
+
+/-- `TianWaterContent::get_composition` up to the composition look-up: the range test, then (inside the range only)
+`world->properties(position, depth, {{{1,0,0}}})[0]`, the pressure and the polynomial fits.  The remaining lines —
+`for i: if (compositions[i] == composition_number) return apply_operation(operation, composition, partition_coefficient);`
+`if (operation == REPLACE) return 0.0;` — are those of the `uniform` model with every fraction equal to that value. -/
+def LineComp.prepare (m : LineComp R) (isFault : Bool) (q : Query R) (pd : PlaneDist R) : Except Err (LineComp R) :=
+  match m with
+  | .tianWater mn mx op comps spec =>
+    let d := lineDist isFault pd.distanceFromPlane
+    if d ≤ mx ∧ d ≥ mn then do
+      let t ← q.worldT ()
+      let w := spec.value q.depth t
+      return .uniform mn mx op comps (comps.map (fun _ => w))
+    else return m
+  | _ => return m
 
 inductive LineVel (R : Type)
   | uniformRaw (mn mx : R) (op : Op) (v : P3 R)
@@ -79,9 +100,23 @@ def LineVel.get (m : LineVel R) (isFault : Bool) (pd : PlaneDist R) (old : P3 R)
 
 inductive LineGrains (R : Type)
   | uniform (mn mx : R) (comps : List Nat) (mats : List (M3 R)) (sizes : List R)
+  /-- `random uniform distribution` (same code as the area copies modulo the range test).  The random numbers are drawn by
+  `LineGrains.prepare`, which replaces the model by `drawn` for the request at hand where it applies; where it does not apply
+  (out of range, composition not listed) it is left as it is and `get` returns `old`. -/
+  | randomUniform (mn mx : R) (comps : List Nat) (sizes : List R) (normalize : List Bool)
+  /-- `random uniform distribution deflected` -/
+  | randomUniformDeflected (mn mx : R) (comps : List Nat) (basis : List (M3 R)) (sizes : List R)
+      (normalize : List Bool) (deflections : List R)
+  /-- a random model after `LineGrains.prepare` drew its numbers for one request: `get_grains` returns these grains -/
+  | drawn (g : Grains R)
 
 def LineGrains.get (m : LineGrains R) (isFault : Bool) (pd : PlaneDist R) (n : Nat) (old : Grains R) : Except Err (Grains R) :=
   match m with
+  | .randomUniform .. => .ok old
+  | .randomUniformDeflected .. => .ok old
+  | .drawn g =>
+    -- `prepare` drew one matrix and one size per grain of `old` (every model keeps the number of grains), so the test is always true there
+    if g.sizes.length = old.sizes.length ∧ g.mats.length = old.mats.length then .ok g else .ok old
   | .uniform mn mx comps mats sizes =>
     let d := lineDist isFault pd.distanceFromPlane
     if d ≤ mx ∧ d ≥ mn then
@@ -93,6 +128,43 @@ def LineGrains.get (m : LineGrains R) (isFault : Bool) (pd : PlaneDist R) (n : N
         let size := if gs < 0 then (1.0 : R) / Scalar.nat old.sizes.length else gs
         return { sizes := old.sizes.map (fun _ => size), mats := old.mats.map (fun _ => mat) }
     else .ok old
+
+/-- the random part of `get_grains` of the two random models, evaluated for one request ahead of the (pure) painting code:
+the range test, the composition look-up, then one matrix per grain (three draws each) and one size per grain (one draw each where
+the listed size is negative), in this order, exactly as in `GrainsModel.get` (Model/Models/Area.lean).  `g0`: the grains
+the request starts from; only the number of grains is used. -/
+def LineGrains.prepare {G : Type} [RandGen G R] (m : LineGrains R) (isFault : Bool) (pd : PlaneDist R) (n : Nat) (g0 : Grains R) :
+    QM G (LineGrains R) :=
+  match m with
+  | .randomUniform mn mx comps sizes normalize =>
+    let d := lineDist isFault pd.distanceFromPlane
+    if d ≤ mx ∧ d ≥ mn then
+      match findComposition comps n with
+      | none => return m
+      | some i => do
+        let mats ← drawMatrices none none g0.mats.length
+        let gs ← liftE (idx sizes i)
+        let (ss, total) ← drawSizes gs g0.sizes.length 0
+        let norm ← liftE (idx normalize i)
+        let ss := if norm then let inv := (1 : R) / total; ss.map (· * inv) else ss
+        return .drawn { sizes := ss, mats := mats }
+    else return m
+  | .randomUniformDeflected mn mx comps basis sizes normalize deflections =>
+    let d := lineDist isFault pd.distanceFromPlane
+    if d ≤ mx ∧ d ≥ mn then
+      match findComposition comps n with
+      | none => return m
+      | some i => do
+        let dfl ← liftE (idx deflections i)
+        let b ← liftE (idx basis i)
+        let mats ← drawMatrices (some dfl) (some b) g0.mats.length
+        let gs ← liftE (idx sizes i)
+        let (ss, total) ← drawSizes gs g0.sizes.length 0
+        let norm ← liftE (idx normalize i)
+        let ss := if norm then let inv := (1 : R) / total; ss.map (· * inv) else ss
+        return .drawn { sizes := ss, mats := mats }
+    else return m
+  | _ => return m
 
 /-- one segment of one section, models resolved (segment → section → feature) -/
 structure Segment (R : Type) where
@@ -312,11 +384,47 @@ def linePaintAt (f : LineFeature R) (ctx : Ctx R) (q : Query R) (h : LineHit R) 
     return writeBlock e [vc.x + sf * (vn.x - vc.x), vc.y + sf * (vn.y - vc.y), vc.z + sf * (vn.z - vc.z)] out
   | _ => .error .unknownProperty
 
-def LineFeature.apply {G : Type} (f : LineFeature R) (ctx : Ctx R) (q : Query R) (pes : List (Req × Nat)) (out : List R) : QM G (List R) :=
-  liftE (do
-    match ← f.covers ctx q with
-    | none => return out
-    | some h => pes.foldlM (fun out (pe : Req × Nat) => linePaintAt f ctx q h pe.1 pe.2 out) out)
+/-- the models of one section's segment made ready for request `p`: a composition request evaluates the water-content models
+(world temperature), a grains request draws the random numbers of the random grains models, in list order -/
+def Segment.prepare {G : Type} [RandGen G R] (s : Segment R) (isFault : Bool) (q : Query R) (pd : PlaneDist R) (p : Req) (g0 : Grains R) :
+    QM G (Segment R) :=
+  match p.code with
+  | 2 => do
+    let comps ← liftE (s.comps.mapM (fun m => m.prepare isFault q pd))
+    return { s with comps := comps }
+  | 3 => do
+    let grains ← s.grains.mapM (fun m => m.prepare isFault pd p.n g0)
+    return { s with grains := grains }
+  | _ => return s
+
+/-- current section first, then the next one: the order in which the C++ walks the two model lists -/
+def LineHit.prepare {G : Type} [RandGen G R] (h : LineHit R) (isFault : Bool) (q : Query R) (p : Req) (g0 : Grains R) : QM G (LineHit R) := do
+  let cur ← h.cur.prepare isFault q h.pd p g0
+  let next ← h.next.prepare isFault q h.pd p g0
+  return { h with cur := cur, next := next }
+
+/-- one request of the per-property loop: whatever needs the world or the random-number engine first (`LineHit.prepare`),
+then the pure painting code -/
+def linePaintAtM {G : Type} [RandGen G R] (f : LineFeature R) (ctx : Ctx R) (q : Query R) (h : LineHit R) (p : Req) (e : Nat) (out : List R) :
+    QM G (List R) := do
+  let h' ← h.prepare f.isFault q p (Grains.ofBlock p.k (readBlock e (p.k * 10) out))
+  liftE (linePaintAt f ctx q h' p e out)
+
+def LineFeature.apply {G : Type} [RandGen G R] (f : LineFeature R) (ctx : Ctx R) (q : Query R) (pes : List (Req × Nat)) (out : List R) :
+    QM G (List R) := do
+  match ← liftE (f.covers ctx q) with
+  | none => return out
+  | some h => pes.foldlM (fun out (pe : Req × Nat) => linePaintAtM f ctx q h pe.1 pe.2 out) out
+
+/-- the temperature entry alone (`properties = {{1,0,0}}`), see `AreaFeature.applyTemp` -/
+def LineFeature.applyTemp (f : LineFeature R) (ctx : Ctx R) (q : Query R) (old : R) : Except Err R := do
+  match ← f.covers ctx q with
+  | none => return old
+  | some h =>
+    let sf := h.pd.fractionOfSection
+    let tc := h.cur.temps.foldl (fun t m => m.get f.isFault ctx q.depth q.gravityNorm h.pd t) old
+    let tn := h.next.temps.foldl (fun t m => m.get f.isFault ctx q.depth q.gravityNorm h.pd t) old
+    return tc + sf * (tn - tc)
 
 /-- `distance_to_feature_plane` -/
 def LineFeature.distanceToPlane (f : LineFeature R) (ctx : Ctx R) (q : Query R) : Except Err (R × R) := do
